@@ -424,7 +424,8 @@ func startLinCluster(engineType string) (*linCluster, error) {
 		srv.Start()
 		cl.reps = append(cl.reps, &linReplica{id: uint64(1 + i), srv: srv, nsConf: nsConf, redisPort: ports[4*i+1], up: 1})
 	}
-	if _, err := cl.waitLeader(20 * time.Second); err != nil {
+	if _, err := cl.waitLeader(45 * time.Second); err != nil {
+		cl.destroy()
 		return nil, err
 	}
 	return cl, nil
@@ -738,7 +739,14 @@ func newLin(c *Ctx) func(string) string {
 			if eng == "" {
 				eng = "pebble"
 			}
-			cl, startErr = startLinCluster(eng)
+			for attempt := 0; attempt < 3; attempt++ { // start-up time-outs under machine load: try again
+				cl, startErr = startLinCluster(eng)
+				if startErr == nil {
+					break
+				}
+				c.Note("harness-timeout-retried")
+				cl = nil
+			}
 		}
 		if startErr != nil {
 			c.Violation("harness", "cluster start: "+startErr.Error())
